@@ -3,6 +3,7 @@ C03 — parameter and %pattern% evaluation. Property theorems only (helper lemma
 -/
 import GontainerModel.Lemmas.Chunk
 import GontainerModel.Lemmas.EscapeTokens
+import GontainerModel.Lemmas.GoQuote
 import GontainerModel.Model.Token
 import GontainerModel.Generated.Regex
 import GontainerModel.Generated.Wiring
@@ -94,6 +95,18 @@ theorem escape_roundtrip (fns : List Token.FnDef) (env : Token.Env) (s : List Ch
   simp only [String.toList_ofList, hcs, hfold, List.isEmpty_nil, ↓reduceIte]
   rw [Escape.eval_lits env toks cs hne (by simpa using hsem), hun]
   rfl
+
+/-- **the emitted Go literal denotes the original text**: whatever string the compiler writes into
+generated code with `%+q` (literal chunks, parameter names, service ids, error texts), reading the
+literal back as Go does yields exactly that string — for every string (quotes, backslashes,
+newlines, control characters, BMP and astral runes) -/
+theorem literal_roundtrip (s : String) : GoQuote.unquote (Val.quoteStr s).toList = some s.toList := by
+  simp [Val.quoteStr, GoQuote.unquote_quote]
+
+/-- … and the literal is pure ASCII, so no later stage (template, gofmt, file encoding) can alter it -/
+theorem literal_ascii (s : String) : ∀ x ∈ (Val.quoteStr s).toList, x.toNat < 128 := by
+  simp only [Val.quoteStr, String.toList_ofList]
+  exact GoQuote.quote_ascii s.toList
 
 /-- **a single-chunk pattern preserves the value's type**: one token ⇒ the provider's value, unchanged -/
 theorem single_chunk_preserves_type (env : Token.Env) (t : Token.Token) :
